@@ -182,6 +182,27 @@ def findings(prog):
                 continue
             m = mods[k[0]]
             f = m.funcs[k[1]]
+            # recursion over the nesting of plain Python tuples (the literal
+            # arguments of a constructor call), not over nodes: every call
+            # of itself happens where the parameter is known not to be a
+            # Node
+            if k in g[k]:
+                from .cfg import facts_at
+                ps_ = [a.arg for a in f.args.args if a.arg not in ('self',
+                                                                   'cls')]
+                selfcalls = [c for c in ast.walk(f) if isinstance(
+                    c, ast.Call) and (
+                        (isinstance(c.func, ast.Name)
+                         and c.func.id == f.name)
+                        or (isinstance(c.func, ast.Attribute)
+                            and c.func.attr == f.name))]
+                try:
+                    if ps_ and selfcalls and all(
+                            (f'isinstance({ps_[0]}, Node)', False)
+                            in facts_at(f, c) for c in selfcalls):
+                        continue
+                except AnalysisError:
+                    pass
             via = [why[(k, t)] for t in g[k] if (k, t) in why
                    and (t == k or k in reach.get(t, ()))]
             out.append((k[0], k[1], f,
